@@ -182,7 +182,7 @@ Proof.
       specialize (IH (set_mp (iter_advance (cand_append (set_st w st') rc)) m1) m2 b). autorewrite with smp in IH.
       rewrite SK' in IH. apply IH; [exact RM|]. rewrite (sk_wf_runs _ _ (w_runs w) n SK'). exact HW.
     + cbn [bind fst snd]. autorewrite with smp.
-      specialize (IH (iter_advance (cand_append w run)) mp b). autorewrite with smp in IH. apply IH; assumption.
+      specialize (IH (iter_advance (cand_append w (recompute_advance (w_st w) run))) mp b). autorewrite with smp in IH. apply IH; assumption.
 Qed.
 
 Lemma pbo_sim : forall n w mp opt lc, Rm (w_mp w) mp -> wf_runs (w_st w) (w_runs w) n = true ->
@@ -219,15 +219,30 @@ Proof. intros s0 rs0 Y mb H <- <-. apply relW_intro. exact H. Qed.
 Ltac fin := cbn; split; [apply relW_intro'; autorewrite with smp; assumption|reflexivity].
 Ltac ifs := repeat (match goal with |- context [if ?c then _ else _] => destruct c end; autorewrite with smp).
 
-Lemma inner_sim : forall n fuel w mp lc s0 rs0,
+Lemma fallback_sim : forall n w mp wopt lc s0 rs0,
   Rm (w_mp w) mp -> wf_runs (w_st w) (w_runs w) n = true -> sk (w_st w) = s0 -> w_runs w = rs0 ->
-  sim2 s0 rs0 (inner_loop fuel w lc) (inner_loop fuel (set_mp w mp) lc).
+  sim2 s0 rs0 (word_fallback w wopt lc) (word_fallback (set_mp w mp) wopt lc).
 Proof.
-  intros n. induction fuel as [|fuel IH]; intros w mp lc s0 rs0 HR HW Hs Hr; cbn [inner_loop]; [exact I|].
+  intros n w mp wopt lc s0 rs0 HR HW Hs Hr. unfold word_fallback. autorewrite with smp.
+  destruct (negb (lc_truncating lc) && negb (has_best w)); [|fin].
+  pose proof (pbo_sim n (restore w) mp wopt lc) as PS. autorewrite with smp in PS. specialize (PS HR HW).
+  rewrite Hs, Hr in PS.
+  destruct (process_break_option (restore w) wopt lc) as [[[a r] c]| | |];
+    destruct (process_break_option (set_mp (restore w) mp) wopt lc) as [[[b r'] c']| | |];
+    cbn in PS; try contradiction; cbn [bind]; try exact PS; try exact I.
+  destruct PS as ((Eb & RM & Sa & Ra) & <- & <-). rewrite Eb.
+  destruct r; cbv zeta; autorewrite with smp; fin.
+Qed.
+
+Lemma inner_sim : forall n fuel w mp wopt lc s0 rs0,
+  Rm (w_mp w) mp -> wf_runs (w_st w) (w_runs w) n = true -> sk (w_st w) = s0 -> w_runs w = rs0 ->
+  sim2 s0 rs0 (inner_loop fuel w wopt lc) (inner_loop fuel (set_mp w mp) wopt lc).
+Proof.
+  intros n. induction fuel as [|fuel IH]; intros w mp wopt lc s0 rs0 HR HW Hs Hr; cbn [inner_loop]; [exact I|].
   autorewrite with smp.
   destruct (next_grapheme_break _ _) as [[b1 ro]| | |]; cbn [bind fst snd]; try exact I; try reflexivity.
   autorewrite with smp.
-  destruct ro as [opt|]; [|fin].
+  destruct ro as [opt|]; [|apply (fallback_sim n); autorewrite with smp; assumption].
   pose proof (pbo_sim n (set_br (checkpoint w) b1) mp opt lc) as PS. autorewrite with smp in PS. specialize (PS HR HW).
   rewrite Hs, Hr in PS.
   destruct (process_break_option (set_br (checkpoint w) b1) opt lc) as [[[a r] c]| | |];
@@ -395,6 +410,7 @@ Lemma history_independent_paragraph : forall n w cfg attrs runs mw,
   = obs_paragraph (wrap_paragraph (w_zero (w_st w)) cfg mw attrs runs).
 Proof.
   intros n w cfg attrs runs mw HW. unfold wrap_paragraph.
+  change (w_st (w_zero (w_st w))) with (w_st w).
   match goal with |- context [match ?f with Some _ => _ | None => _ end] => destruct f end.
   { cbn. destruct w; reflexivity. }
   rewrite prepare_as_smp.
